@@ -228,7 +228,8 @@ func (g *Gen) next() Event {
 	case "takerate":
 		slashW = 2
 	case "rewards":
-		accrueW, slashW, govW = 14, 2, 2
+		accrueW, slashW, govW = 14, 1, 2
+		opts[4].w = 16 // claims
 	case "power":
 		nativeW, realSlashW, slashW, accrueW, govW = 10, 5, 0, 3, 3
 	case "gov":
@@ -339,6 +340,9 @@ func DefaultCfg(r *rand.Rand, family string, big bool) WorldCfg {
 	weights := []string{"1", "0.5", "2", "0.1"}
 	if family == "shares" || family == "unbond" || family == "redeleg" {
 		takes = []string{"0", "0", "0", "0.5", "0.1"}
+	}
+	if family == "rewards" {
+		takes = []string{"0", "0", "0", "0", "0.1"} // take-rate deductions change token values under accrued rewards (C13 excludes those)
 	}
 	for i, d := range []string{"ast0", "ast1"} {
 		w := pick(r, weights)
